@@ -144,6 +144,27 @@ def check_all(tier, name):
             add(f"C08:{label}:factor-identity",
                 f"{label}: fresh momenta are L z with L L^T = {np.round(Lm @ Lm.T, 6).tolist()} but the (projected) metric at the position is {np.round(cov, 6).tolist()}",
                 {"engine": "momentum", "label": label})
+        # ---- the same identity on a system that has been USED (what an integrator step asks of it: energies, flows,
+        #      derivatives -- lazily computed factorisations of the metric are filled by then) ----
+        used = ChainState(pos=np.array(pos), mom=lin.copy(), dir=1)
+        for meth, args in (("h", ()), ("h1_flow", (0.1,)), ("h2_flow", (0.1,)), ("dh2_flow_dmom", (0.1,)), ("dh_dpos", ()), ("dh_dmom", ())):
+            if hasattr(system, meth):
+                try:
+                    getattr(system, meth)(used.copy(), *args)
+                except Exception:  # noqa: BLE001
+                    pass
+        cols = []
+        for i in range(n):
+            e = np.zeros(n)
+            e[i] = 1.0
+            cols.append(np.array(system.sample_momentum(ChainState(pos=np.array(pos), mom=None, dir=1), ScriptRng([e]))))
+        Lu = np.array(cols).T
+        runs += n
+        if not np.allclose(Lu @ Lu.T, cov, rtol=1e-9, atol=1e-10):
+            add(f"C08:{label}:factor-identity:after-use",
+                f"{label}: after the system has evaluated energies, flows and derivatives once, fresh momenta are L z with L L^T = "
+                f"{np.round(Lu @ Lu.T, 6).tolist()} but the (projected) metric at the position is {np.round(cov, 6).tolist()}",
+                {"engine": "momentum", "label": label})
         # ---- transitions: every enumerated sequence of refreshes ----
         for leaf in leaves:
             hist = leaf["hist"]
